@@ -176,7 +176,7 @@ theorem work_add_use (st st1 : WorkState) (l : Line) (args args1 : List Bytes)
     · rename_i s a' hps
       simp only [Prod.mk.injEq] at h
       obtain ⟨rfl, rfl⟩ := h
-      have ha' := parseString_tok hps
+      have ha' := ModfileFmtDir.parseString_tok hps
       subst ha'
       refine ⟨⟨he, ?_⟩, a, s, rfl, hps, rfl, rfl⟩
       intro st' l' hsim _
